@@ -154,8 +154,9 @@ def finish(prop_id, tier, seed, level, acc, rule, assumptions, t0, extra_cov=Non
            min_evaluations=1, exhaustive=False, require_counters=()):
     """Classify violations, write witnesses and evidence, print verdict lines, return exit code."""
     known = {(k["property"], k["key"]): k for k in load_known() if k.get("status") == "known"}
-    os.makedirs(os.path.join(VERIF, "witness"), exist_ok=True)
-    os.makedirs(os.path.join(VERIF, "evidence"), exist_ok=True)
+    out = os.environ.get("VERIF_OUT_DIR", VERIF)        # scratch runs (mutation validation) write elsewhere
+    os.makedirs(os.path.join(out, "witness"), exist_ok=True)
+    os.makedirs(os.path.join(out, "evidence"), exist_ok=True)
     new, seen_known = [], collections.OrderedDict()
     for v in acc.violations:
         k = (prop_id, v["key"])
@@ -173,7 +174,7 @@ def finish(prop_id, tier, seed, level, acc, rule, assumptions, t0, extra_cov=Non
         seen_new_keys[v["key"]] += 1
         if seen_new_keys[v["key"]] > 2:
             continue
-        path = os.path.join(VERIF, "witness", "%s-%s-%d.json" % (prop_id, v["key"][:60], n))
+        path = os.path.join(out, "witness", "%s-%s-%d.json" % (prop_id, v["key"][:60].replace("/", "_"), n))
         n += 1
         with open(path, "w") as f:
             json.dump({"property": prop_id, "key": v["key"], "what": v["what"], "tier": tier,
@@ -203,7 +204,7 @@ def finish(prop_id, tier, seed, level, acc, rule, assumptions, t0, extra_cov=Non
     ev = {"property_id": prop_id, "tier": tier, "seed": seed, "level": level, "coverage": cov,
           "assumptions": assumptions, "wall_s": round(time.time() - t0, 2),
           "violations": sum(seen_new_keys.values())}
-    with open(os.path.join(VERIF, "evidence", prop_id + ".json"), "w") as f:
+    with open(os.path.join(out, "evidence", prop_id + ".json"), "w") as f:
         json.dump(ev, f, indent=1, default=repr, sort_keys=True)
     for l in lines:
         print(l)
